@@ -25,7 +25,8 @@ def handle (c : Case) : Verdict :=
         else some s!"[C16] single-replica pipeline ({bm}) does not behave like the iterator chain: got {c.implOut.map (·.take 200)} expected {exp.take 200}"
       let boundaries := (stages.filter (fun w => w[1]? == some "s")).length
       { out := [exp], oracle, nontrivial := n ≥ 2 && boundaries ≥ 1,
-        tags := [bm, s!"boundaries{min boundaries 3}", if n ≥ 40 then "multi-batch" else "small"] }
+        tags := [bm, s!"boundaries{min boundaries 3}", if n ≥ 40 then "multi-batch" else "small"]
+          ++ (if stages.any (fun w => w[1]? == some "p") then ["slow-producer"] else []) }
     | none => { out := [], oracle := some "bad header", nontrivial := false }
   | _ => { out := [], oracle := some "bad header", nontrivial := false }
 
